@@ -27,6 +27,15 @@ def _nocore():
 
 
 def run_scenario(exe, text, workdir, variant="plain", timeout=20):
+    """see _run_scenario; a run that times out is repeated once with four times the allowance, so that a loaded machine
+    (the sanitizer build is slow to start) is not reported as a hang: a genuine hang times out twice"""
+    res = _run_scenario(exe, text, workdir, variant, timeout)
+    if res["cls"] == "timeout":
+        res = _run_scenario(exe, text, workdir, variant, 4 * timeout)
+    return res
+
+
+def _run_scenario(exe, text, workdir, variant="plain", timeout=20):
     """Run one scenario in its own process (cwd = workdir). Returns dict(cls, detail, out, rc).
     cls: 'ok' (process ended normally; see CONFIG lines for accepted/rejected) or a death class:
     'signal:<NAME>', 'sanitizer', 'exception', 'timeout', 'exit-in-library'."""
